@@ -108,6 +108,29 @@ struct C19 : Prop {
 			J post = J::arr(); post.push("quiesce_noflush"); ph.set("post", post);
 			phs.push(ph);
 		}
+		// address swap (one run in six): a board leaves, another configured board with a different Secure-ACK setting logs in at the address it left,
+		// then reports come from that address: mirrors follow the board that is there now
+		if (!impeded && !budget_impeded && r.chance(170)) {
+			std::vector<const cfg::Board *> leaf; for (auto &b : w.boards) if (b.present && b.addr.size() == 1 && !b.is_iface()) leaf.push_back(&b);
+			const cfg::Board *bx = nullptr, *by = nullptr;
+			for (auto *a : leaf) for (auto *b2 : leaf) if (a != b2 && a->secack() != b2->secack() && !bx && r.coin()) { bx = a; by = b2; }
+			if (bx && by) {
+				J ph = J::obj(); J ev = J::arr(); int t = 0;
+				auto report = [&](const std::vector<uint8_t> &from, int k) {
+					J e = J::obj(); e.set("at_us", t); e.set("node", pc::jaddr(from)); e.set("tag", 700);
+					switch (k % 4) { case 0: e.set("type", (int) MSG_BM_OCC); e.set("data", pc::jarr({(int) r.byte()})); break; case 1: e.set("type", (int) MSG_BM_FREE); e.set("data", pc::jarr({(int) r.byte()})); break;
+					                 case 2: e.set("type", (int) MSG_BM_MULTIPLE); e.set("data", pc::jarr({8, 8, (int) r.byte()})); break; default: e.set("type", (int) MSG_BM_POSITION); e.set("data", pc::jarr({(int) r.byte(), (int) r.byte(), (int) r.byte(), 1, 2})); }
+					ev.push(e); t += 5000; };
+				for (int k = 0, n = (int) r.range(1, 3); k < n; k++) report(bx->addr, (int) r.below(4));     // the board that will leave has just been looked up
+				{ J e = J::obj(); e.set("at_us", t); e.set("node", pc::jaddr(bx->addr)); e.set("topo", "lost"); ev.push(e); t += 5000; }
+				{ J e = J::obj(); e.set("at_us", t); e.set("node", pc::jaddr(by->addr)); e.set("topo", "lost"); ev.push(e); t += 5000; }
+				{ J e = J::obj(); e.set("at_us", t); e.set("node", pc::jaddr(by->addr)); e.set("topo", "new"); e.set("as", pc::jaddr(bx->addr)); ev.push(e); t += 10000; }
+				for (int k = 0, n = (int) r.range(2, 6); k < n; k++) report(bx->addr, k + (int) r.below(4));
+				ph.set("bus", ev); ph.set("address_swap", true);
+				J post = J::arr(); post.push("quiesce_noflush"); ph.set("post", post);
+				phs.push(ph);
+			}
+		}
 		{ J ph = J::obj(); J pre = J::arr(); J h = J::obj(); h.set("op", "heal"); pre.push(h); ph.set("pre", pre); ph.set("heal", true); J post = J::arr(); post.push("quiesce"); ph.set("post", post); phs.push(ph); }
 		se.set("phases", phs);
 		J ss = J::arr(); ss.push(se); plan.set("sessions", ss);
@@ -119,6 +142,7 @@ struct C19 : Prop {
 	cfg::World world;
 	std::vector<Expect> exp;
 	std::map<uint32_t, bool> secack;       // node key -> board has SecAck
+	std::map<uint32_t, std::string> at_addr; uint64_t swaps_seen = 0;
 	std::set<uint32_t> stalled_now;         // nodes that reported STALL=1 (delivery started) and not yet STALL=0 processed
 	size_t wire_seen = 0;
 	uint64_t immediate_checked = 0, deferred = 0, plain_reports = 0, multiple_reports = 0;
@@ -147,11 +171,19 @@ struct C19 : Prop {
 	void attach(Engine &e) override {
 		world = cfg::from_json(e.plan["world"]);
 		exp.clear(); secack.clear(); stalled_now.clear(); wire_seen = 0; immediate_checked = deferred = plain_reports = multiple_reports = 0; armed = false;
-		for (auto &b : world.boards) if (b.present) secack[keyof(b.addr)] = b.secack();
+		at_addr.clear(); swaps_seen = 0;
+		for (auto &b : world.boards) if (b.present) { secack[keyof(b.addr)] = b.secack(); at_addr[keyof(b.addr)] = b.id; }
 		// a mirror can exist as soon as the report's last byte has been handed to the receiver: the expectation is registered then;
 		// "already on the wire" is judged when the report is known to be processed (the receiver polls the line again)
 		e.bus.on_delivered = [this](bus::UpFrame &f) {
 			for (auto &m : f.msgs) if (m.type == MSG_STALL && !m.data.empty() && m.data[0]) stalled_now.insert(m.addr_key());
+			// which board is at which address follows the node notices (frames are processed in the order they are delivered)
+			if (!f.corrupted) for (auto &m : f.msgs) if ((m.type == MSG_NODE_NEW || m.type == MSG_NODE_LOST) && m.data.size() >= 9) {
+				for (auto &b : world.boards) if (!memcmp(b.uid, &m.data[2], 7)) {
+					for (auto it = at_addr.begin(); it != at_addr.end();) { if (it->second == b.id) { secack.erase(it->first); it = at_addr.erase(it); } else ++it; }
+					if (m.type == MSG_NODE_NEW) { std::vector<uint8_t> na = m.addr; na.push_back(m.data[1]); at_addr[keyof(na)] = b.id; secack[keyof(na)] = b.secack(); swaps_seen++; }
+				}
+			}
 			if (!armed || f.corrupted) return;
 			for (auto &m : f.msgs) {
 				uint32_t nk = m.addr_key();
@@ -219,7 +251,7 @@ struct C19 : Prop {
 		f.set("nontrivial", (sa.size() >= 2 || (sa.size() >= 1 && plain_reports > 0)) && multiple_reports > 0);
 		f.set("shape", (long long) (pc::shape_hash(e.plan) >> 1));
 		J p = J::obj(); p.set("mirrors_expected", (long long) exp.size()); p.set("immediate_checked", (long long) immediate_checked); p.set("deferred_by_stall", (long long) deferred);
-		p.set("reports_from_plain_boards", (long long) plain_reports); p.set("multiple_reports", (long long) multiple_reports);
+		p.set("reports_from_plain_boards", (long long) plain_reports); p.set("multiple_reports", (long long) multiple_reports); { long long sw = 0; for (size_t q = 0; q < e.plan["sessions"][0]["phases"].size(); q++) if (e.plan["sessions"][0]["phases"][q].getb("address_swap")) sw++; p.set("address_swap_phases", sw); }
 		f.set("probes", p);
 	}
 };
